@@ -400,6 +400,10 @@ class TopLevelVisitor(ast.NodeVisitor):
             >>>     assert got == want
         """
         # lineno points to the last line of a string in CPython < 3.8
+        if hasattr(docnode, 'end_lineno') and PLAT_IMPL != 'PyPy':
+            # CPython >= 3.8 knows exactly where the string literal starts
+            # and ends, no matter how it is quoted or prefixed.
+            return docnode.lineno, docnode.end_lineno
         if hasattr(docnode, 'end_lineno'):
             endpos = docnode.end_lineno - 1
         else:
